@@ -154,7 +154,7 @@ Inductive op :=
 Inductive event :=
 | ERet (code : Z)
 | EPoll (h cb path : nat) (status : Z) (prev curr : statbuf)   (* user callback *)
-| EClosed (h : nat)                                            (* close callback *)
+| EClosed (h : nat) (g_live : nat)      (* close callback; ghost: contexts of h not freed at that moment *)
 | EStat (path : nat)                                           (* a worker stats [path] *)
 | EIter                                                        (* a loop iteration begins *)
 | EObs (l : list (bool * bool * option nat))                   (* active, closing, getpath *)
@@ -303,6 +303,10 @@ Definition timer_close_cb (s : st) (c : nat) : st :=
     end in
   upd_c s1 c c_set_freed.
 
+(* ghost: the contexts of handle h that are allocated *)
+Definition live_of (s : st) (h : nat) : nat :=
+  length (filter (fun x => negb (c_freed x) && Nat.eqb (c_parent x) h) (cs s)).
+
 (* uv__run_closing_handles over the detached list *)
 Fixpoint run_closing (q : list citem) (s : st) (beh : nat -> list op) (cnt : nat)
   : st * list event * nat :=
@@ -310,7 +314,7 @@ Fixpoint run_closing (q : list citem) (s : st) (beh : nat -> list op) (cnt : nat
   | [] => (s, [], cnt)
   | CTimer c :: q' => run_closing q' (timer_close_cb s c) beh cnt
   | CHandle h :: q' =>
-      let '(s1, e1, n1) := user_cb (upd_h s h h_set_closed) (EClosed h) beh cnt in
+      let '(s1, e1, n1) := user_cb (upd_h s h h_set_closed) (EClosed h (live_of s h)) beh cnt in
       let '(s2, e2, n2) := run_closing q' s1 beh n1 in
       (s2, e1 ++ e2, n2)
   end.
